@@ -52,6 +52,7 @@ ASSUMPTIONS = [
 TAGNAME = ["SubCheck", "SubAcquire", "SubAppend", "SubStart", "SubRelease", "SubWait", "Popen", "Exit", "CommRet",
            "CommTimeout", "CommExc", "Finally", "SetResult", "SdSet", "SdAcquire", "SdCancel", "SdSnap", "SdJoin", "SdReturn", "SdRaise",
            "SubRecheck", "SubUnlock", "SdRelease"]
+RAW = -1      # [RAW, role, gate]: a step of the implementation that has no label in the model
 SUB_TAGS = (SUBCHECK, SUBACQ, SUBAPP, SUBSTART, SUBREL, SUBWAIT, SUBRECHECK, SUBUNLOCK)
 WRK_TAGS = (POPEN, EXIT, COMMRET, COMMTMO, COMMEXC, FINALLY, SETRES)
 ANSWER_TEXT = ["unsat\n", "sat\n", "unknown\n", "(error \"boom\")\n"]
@@ -64,6 +65,9 @@ def show(sched):
             out.append("<unmodelled step>")
             continue
         t, a, b = lab
+        if t == RAW:
+            out.append(f"<{a} leaves `{b}`>")
+            continue
         if t == POPEN:
             out.append(f"Popen({a},{'ok' if b else 'fail'})")
         elif t == COMMRET:
@@ -82,7 +86,7 @@ def cfg_words(tmos, waits):
 
 
 def flat(sched):
-    return [x for l in sched for x in l]
+    return [x for l in sched if l[0] != RAW for x in l]
 
 
 def _big_stack():
@@ -727,6 +731,8 @@ def impl_run(case):
 
         def apply(lab):
             t, a, b = lab
+            if t == RAW:
+                return ctl.release(tuple(a), b)
             if t in SUB_GATE:
                 return rel(("sub", a), SUB_GATE[t])
             if t == POPEN:
@@ -869,9 +875,45 @@ def impl_run(case):
                     return False
             return False
 
+        def thread_of(lab, role=None):
+            """submitter j / worker j with its process / shutdown caller k with its cancel tasks"""
+            if role is not None:
+                return ("sd", role[1]) if role[0] == "can" else (role[0], role[1])
+            t, a = lab[0], lab[1]
+            if t == RAW:
+                return thread_of(None, tuple(a))
+            return ("sub", a) if t in SUB_TAGS else (("wrk", a) if t in WRK_TAGS else ("sd", a))
+
+        ex_cfg = case.get("explore")
+        last_thread, npre = None, 0
+
+        def cost_of(th, cands):
+            if last_thread is None or th == last_thread:
+                return 0
+            return 1 if any(thread_of(None, role) == last_thread for _, role, _ in cands) else 0
+
+        def variants(lab, mask):
+            t, a = lab[0], lab[1]
+            if t == POPEN:
+                return [lab] + ([[POPEN, a, 0]] if mask & 1 else [])
+            if t in (EXIT, COMMRET):
+                out_ = [lab]
+                if t == COMMRET and mask & 8:
+                    out_ += [[COMMRET, a, x] for x in (1, 2, 3)]
+                if mask & 4 and tmos[a]:
+                    out_.append([COMMTMO, a, 0])
+                if mask & 2:
+                    out_.append([COMMEXC, a, 0])
+                return out_
+            return [lab]
+
         obs = [observe()]
         error, at = None, len(sched)
         for i, lab in enumerate(sched):
+            if ex_cfg is not None:
+                th = thread_of(lab)
+                npre += cost_of(th, candidates())
+                last_thread = th
             err = apply(lab)
             if err is None and ctl.errors:
                 err = "; ".join(ctl.errors)
@@ -888,15 +930,53 @@ def impl_run(case):
                 done = free_run(None, tail)
         elif case.get("free") is not None:
             done = free_run(random.Random(case["free"]), tail)
+        alts = []
+        if error is None and ex_cfg is not None:
+            # stateless exploration of the implementation: continue on the current thread while it can
+            # move (else the first thread that can); every other enabled step within the preemption
+            # budget is returned as an alternative prefix to be explored by another run
+            maxpre, mask = ex_cfg["maxpre"], ex_cfg["mask"]
+            done = False
+            for _ in range(400):
+                cands = candidates()
+                if not cands:
+                    done = True
+                    break
+                opts = []
+                for lab, role, g in cands:
+                    th = thread_of(None, role)
+                    for v in (variants(lab, mask) if lab is not None else [[RAW, list(role), g]]):
+                        opts.append((v, th))
+                pick = next((o for o in opts if o[1] == last_thread), opts[0])
+                pos = len(sched) + len(tail)
+                for o in opts:
+                    if o is not pick and npre + cost_of(o[1], cands) <= maxpre:
+                        alts.append([pos, o[0]])
+                npre += cost_of(pick[1], cands)
+                last_thread = pick[1]
+                err = apply(pick[0])
+                what = None
+                if pick[0][0] == RAW:
+                    what = f"step of thread {tuple(pick[0][1])} at `{pick[0][2]}` that has no label in the model"
+                if err is not None:
+                    what = f"{show([pick[0]])} could not be completed: {err}"
+                if ctl.errors:
+                    what = (what or "") + " harness errors: " + "; ".join(ctl.errors)
+                    del ctl.errors[:]
+                tail.append({"label": pick[0] if what is None else None, "step": pick[0], "what": what, "obs": observe()})
+                if err is not None:
+                    # do not branch below a step that went wrong; let the implementation finish
+                    done = free_run(None, tail) if "did not settle" not in err else False
+                    break
         not_quiescent = None
-        if error is None and (case.get("maximal") or case.get("free") is not None):
+        if error is None and (case.get("maximal") or case.get("free") is not None or ex_cfg is not None):
             rest = candidates()
             if rest:
                 not_quiescent = "; ".join(f"{role} at `{g}`" for _, role, g in rest)
         with ctl.cv:
             stuck = [[str(r), t["state"], t["gate"]] for r, t in sorted(ctl.th.items(), key=lambda x: str(x[0])) if t["state"] != "done"]
         extra = {"comm_timeouts": [None if x is None else 1 for x in ctl.comm_timeouts]}
-        return {"obs": obs, "error": error, "at": at, "tail": tail, "done": done, "stuck": stuck, "not_quiescent": not_quiescent, **extra}
+        return {"obs": obs, "error": error, "at": at, "tail": tail, "done": done, "stuck": stuck, "not_quiescent": not_quiescent, "alts": alts, **extra}
     finally:
         ctl.stop()
         if getattr(ctl, "restore", None):
@@ -919,6 +999,11 @@ def impl_run_safe(case):
 
 # =========================================================================== the property (python rendering of Spec/ExecSpec.v)
 
+def impl_driven(case):
+    """the schedule is chosen by the implementation (random completion / stateless exploration)"""
+    return case.get("free") is not None or case.get("explore") is not None
+
+
 def impl_events(case, res):
     """What the implementation did, as (labels, obs): obs[0] is the initial observation and
     obs[i + 1] the one after labels[i].  The labels are the forced ones that the implementation
@@ -926,7 +1011,7 @@ def impl_events(case, res):
     label in the model)."""
     k = max(0, len(res.get("obs", [])) - 1)
     tail = res.get("tail") or []
-    labels = [list(l) for l in case["sched"][:k]] + [e["label"] for e in tail]
+    labels = [(None if l[0] == RAW else list(l)) for l in case["sched"][:k]] + [e["label"] for e in tail]
     obs = list(res.get("obs", [])) + [e["obs"] for e in tail]
     return labels, obs
 
@@ -965,7 +1050,7 @@ def spec_check(case, res):
     # the run is complete when nothing can move any more: a maximal schedule of the model that the
     # implementation followed to the end, or a completion the implementation ran by itself
     if res.get("error") is None:
-        complete = bool(case.get("maximal")) or (case.get("free") is not None and res.get("done"))
+        complete = bool(case.get("maximal")) or (impl_driven(case) and bool(res.get("done")))
     else:
         complete = bool(res.get("done"))
     if complete:
@@ -1223,7 +1308,7 @@ def families(tier):
     fam = []
     if tier == "quick":
         fam += [([0], [], 3, 15), ([1], [], 3, 15)]
-        fam += [([1], [0], 2, 4), ([0], [1], 2, 0), ([0], [0], 1, 15), ([1], [1], 1, 15), ([0], [0, 1], 1, 0), ([1], [0, 0], 0, 4)]
+        fam += [([1], [0], 2, 4), ([0], [1], 2, 0), ([0], [0], 1, 15), ([1], [1], 1, 4), ([0], [0, 1], 1, 0), ([1], [0, 0], 0, 4)]
         fam += [([0, 0], [], 1, 0), ([0, 1], [0], 0, 0), ([0, 0], [1], 0, 0)]
     else:
         fam += [([0], [], 4, 15), ([1], [], 4, 15)]
@@ -1237,6 +1322,34 @@ def random_schedules(exe, r, tmos, waits, count, maxpre):
     cw = cfg_words(tmos, waits)
     res = model_parallel(exe, [("c17_random", [r.getrandbits(62), maxpre] + cw) for _ in range(count)])
     return [[list(x[i:i + 3]) for i in range(0, len(x), 3)] for x in res if x is not None]
+
+
+def explore_impl(pool, cfgs, cap):
+    """Stateless exploration of the real classes (no model involved): every maximal run with at most
+    `maxpre` preemptions, data alternatives per `mask` (as c17_enum).  One execution per schedule; an
+    execution returns the alternatives it did not take as new prefixes."""
+    out_cases, out_res, notes = [], [], []
+    for tm, wa, maxpre, mask in cfgs:
+        frontier = [{"tmos": tm, "waits": wa, "sched": [], "explore": {"maxpre": maxpre, "mask": mask}, "maximal": False,
+                     "family": f"impl-exh:{len(tm)}j{len(wa)}s"}]
+        count, truncated = 0, False
+        while frontier:
+            if count + len(frontier) > cap:
+                frontier, truncated = frontier[:max(0, cap - count)], True
+            results = pool.map(impl_run_safe, frontier, chunksize=2) if frontier else []
+            nxt = []
+            for c, x in zip(frontier, results):
+                out_cases.append(c)
+                out_res.append(x)
+                count += 1
+                k = max(0, len(x.get("obs", [])) - 1)
+                steps = [list(l) for l in c["sched"][:k]] + [e.get("step") for e in x.get("tail", [])]
+                for pos, st in x.get("alts", []):
+                    if all(s_ is not None for s_ in steps[:pos]):
+                        nxt.append(dict(c, sched=steps[:pos] + [st]))
+            frontier = [] if truncated else nxt
+        notes.append(f"implementation-driven: jobs(tmo)={tm} shutdown(wait)={wa}: {'the first ' if truncated else 'all '}{count} maximal runs of the real classes with <= {maxpre} preemptions (data mask {mask})")
+    return out_cases, out_res, notes
 
 
 def compare_obs(a, b):
@@ -1288,7 +1401,7 @@ def run(rep, tier):
     cases = [dict(c, maximal=c.get("maximal", False), family="corpus") for c in CORPUS]
     exhaustive_note = []
     # schedules chosen by the implementation itself (no model needed): random completions from the initial state
-    free_cfg = [([0], [0], 30), ([1], [1], 30), ([0], [1, 0], 50), ([0, 1], [0], 50), ([1, 0], [1], 50), ([0, 0], [1, 0], 60), ([1, 0], [0, 0], 30)]
+    free_cfg = [([0], [0], 20), ([1], [1], 20), ([0], [1, 0], 30), ([0, 1], [0], 30), ([1, 0], [1], 40), ([0, 0], [1, 0], 40), ([1, 0], [0, 0], 20)]
     if tier != "quick":
         free_cfg = [(tm, wa, c * 12) for tm, wa, c in free_cfg] + [([0, 1, 0], [1, 0], 800), ([0, 0, 1], [0], 500)]
     for tm, wa, cnt in free_cfg:
@@ -1307,7 +1420,7 @@ def run(rep, tier):
             for s in ss:
                 cases.append({"tmos": tm, "waits": wa, "sched": s, "maximal": True, "family": f"exh:{len(tm)}j{len(wa)}s"})
         # random deeper schedules
-        rnd = [([0, 1], [0], 120, 3), ([0, 0], [1], 100, 3), ([1, 0], [0, 1], 80, 3), ([0], [1, 0], 50, 4), ([0, 1], [1, 0], 80, 3)] if tier == "quick" else \
+        rnd = [([0, 1], [0], 80, 3), ([0, 0], [1], 70, 3), ([1, 0], [0, 1], 60, 3), ([0], [1, 0], 30, 4), ([0, 1], [1, 0], 60, 3)] if tier == "quick" else \
               [([0, 1], [0], 1500, 4), ([0, 0], [1], 1000, 4), ([1, 0], [0, 1], 1000, 4), ([0, 1], [1, 0], 1000, 4), ([0, 1, 0], [0], 1500, 3), ([0, 0, 1], [1], 1000, 3), ([0, 1, 0], [0, 1], 1000, 3)]
         for tm, wa, cnt, P_ in rnd:
             for s in random_schedules(exe, r, tm, wa, cnt, P_):
@@ -1322,6 +1435,10 @@ def run(rep, tier):
         rand_async = pool.map_async(real_random_run, [r.randrange(1 << 30) for _ in range(nreal)], chunksize=1) if nreal else None
         real = real_async.get(600)
         rand_real = rand_async.get(1500) if rand_async else []
+        ex_cfgs = [([0], [0], 1, 0), ([0], [1], 1, 0), ([1], [1], 0, 6), ([0], [1, 0], 1, 0), ([0, 0], [0], 0, 0)] if tier == "quick" else \
+                  [([0], [0], 2, 15), ([1], [1], 2, 15), ([0], [1, 0], 2, 0), ([1], [0, 0], 1, 4), ([0, 0], [0], 1, 0), ([0, 1], [1], 1, 4), ([0, 0], [1, 0], 0, 0)]
+        ex_cases, ex_res, ex_notes = explore_impl(pool, ex_cfgs, 300 if tier == "quick" else 6000)
+        exhaustive_note += ex_notes
         impl = []
         nerr = 0
         for res_ in pool.imap(impl_run_safe, cases, chunksize=4):
@@ -1330,6 +1447,12 @@ def run(rep, tier):
                 nerr += 1
                 if nerr >= 40:
                     break          # something is badly broken: do not wait for thousands of time-outs
+        skipped = len(cases) - len(impl)
+        if skipped:
+            cases = cases[:len(impl)]
+            rep.coverage["skipped_after_40_errors"] = skipped
+        cases += ex_cases
+        impl += ex_res
         # a thread that is not scheduled for seconds on an overloaded machine looks like a hang:
         # re-run such cases, each in a fresh process with a long limit, before believing them
         def stalled(x):
@@ -1345,10 +1468,6 @@ def run(rep, tier):
             for i, x in zip(retry, again):
                 impl[i] = x
             rep.coverage["retried_after_scheduling_stall"] = len(retry)
-        skipped = len(cases) - len(impl)
-        if skipped:
-            cases = cases[:len(impl)]
-            rep.coverage["skipped_after_40_errors"] = skipped
     phase["impl_s"] = round(time.time() - t_ph, 1)
     t_ph = time.time()
     # what the implementation did, per case; the model is run on exactly these labels
@@ -1357,13 +1476,13 @@ def run(rep, tier):
     if exe is not None:
         def msched(i):
             labels = events[i][0]
-            if cases[i].get("free") is not None and all(l is not None for l in labels):
+            if impl_driven(cases[i]) and all(l is not None for l in labels):
                 return labels
             return cases[i]["sched"]
 
         tr = model_parallel(exe, [("c17_trace", cfg_words(c["tmos"], c["waits"]) + flat(msched(i))) for i, c in enumerate(cases)])
         model = [parse_trace(t, len(c["tmos"]), len(c["waits"])) if t is not None else None for t, c in zip(tr, cases)]
-        fidx = [i for i, c in enumerate(cases) if c.get("free") is not None]
+        fidx = [i for i, c in enumerate(cases) if impl_driven(c)]
         en = model_parallel(exe, [("c17_enabled", cfg_words(cases[i]["tmos"], cases[i]["waits"]) + flat(msched(i))) for i in fidx]) if fidx else []
         quiet = dict(zip(fidx, en))
 
@@ -1374,7 +1493,7 @@ def run(rep, tier):
     for i, c in enumerate(cases):
         res = impl[i]
         labels, iobs = events[i]
-        free = c.get("free") is not None
+        free = impl_driven(c)
         kinds = []
         tags = {l[0] for l in labels if l is not None}
         if c["waits"]:
@@ -1394,7 +1513,7 @@ def run(rep, tier):
         for k in kinds or ["plain"]:
             rep.count("case_kind", k)
         rep.case({"tmos": c["tmos"], "waits": c["waits"], "schedule": show(labels)}, nontrivial=bool(kinds))
-        casedoc = {"tmos": c["tmos"], "waits": c["waits"], "sched": c["sched"], "free": c.get("free"), "maximal": c["maximal"],
+        casedoc = {"tmos": c["tmos"], "waits": c["waits"], "sched": c["sched"], "free": c.get("free"), "explore": c.get("explore"), "maximal": c["maximal"],
                    "schedule": show(c["sched"]), "implementation_did": show(labels)}
         # (1) the property on the implementation
         viol = spec_check(c, res)
@@ -1430,7 +1549,7 @@ def run(rep, tier):
                          f"({show(c['sched'][res['at']:res['at'] + 1]) if res['at'] >= 0 else '-'}): {res['error']} -- schedule [{show(c['sched'])}] jobs(tmo)={c['tmos']} shutdown(wait)={c['waits']}",
                          case={**casedoc, "error": res["error"], "at": res["at"], "trace": res.get("trace")})
             continue
-        anomalies = [e["what"] for e in res.get("tail", []) if e["label"] is None]
+        anomalies = [f"{show([l])} (forced)" for l in c["sched"] if l[0] == RAW] + [e["what"] for e in res.get("tail", []) if e["label"] is None]
         if anomalies:
             nbad += 1
             if nbad <= 12:
@@ -1517,6 +1636,8 @@ def replay(rep, body):
             case = {"tmos": c["tmos"], "waits": c["waits"], "sched": c["sched"], "maximal": c.get("maximal", False)}
             if c.get("free") is not None:
                 case["free"] = c["free"]
+            if c.get("explore") is not None:
+                case["explore"] = c["explore"]
             res = impl_run_safe(case)
             labels, obs = impl_events(case, res)
             print("forced schedule    :", show(case["sched"]), "" if case.get("free") is None else f"(then random completion, seed {case['free']})")
